@@ -188,7 +188,9 @@ class C17(runner.Check):
 				"deal": p.choice(["rr", "random"])})
 		execs.append({"pool": "joblib1"})
 		case = {"leg": leg, "seed": seed, "chroms": chroms, "loci": loci, "kw": kw,
-			"bigwig": use_bw, "loci_as": r.choice(["df", "bed"]), "execs": execs}
+			"bigwig": use_bw, "loci_as": r.choice(["df", "bed"]), "execs": execs,
+			"df_extra": r.chance(0.4), "chroms_as": r.choice(["list", "tuple"]),
+			"seed_type": r.wchoice(["int", "numpy.int64"], [4, 1])}
 		if leg == "realpool":
 			case["execs"] = [{"pool": "sim", "W": 1, "seed": 0}] + [
 				{"pool": "loky", "n_jobs": nj} for nj in (1, 2, 3)]
@@ -384,6 +386,10 @@ class C17(runner.Check):
 			loci_arg = lp
 		else:
 			loci_arg = pandas.DataFrame(case["loci"], columns=["chrom", "start", "end"])
+			if case.get("df_extra"):
+				loci_arg["name"] = ["p%d" % k for k in range(len(loci_arg))]
+				loci_arg["score"] = 1.5
+				loci_arg.index = [7 + 2 * k for k in range(len(loci_arg))][::-1]
 		orc = self._oracle(case, seqs, sigs, missing_bw_chrom=missing)
 		first = None
 		try:
@@ -412,8 +418,12 @@ class C17(runner.Check):
 								loci_arg if isinstance(loci_arg, str) else loci_arg.copy(), fa,
 								in_window=kw["in_window"], out_window=kw["out_window"],
 								max_n_perc=kw["max_n_perc"], gc_bin_width=kw["gc_bin_width"],
-								bigwig=bwp, signal_beta=kw["signal_beta"], chroms=kw["chroms"],
-								random_state=kw["random_state"], n_jobs=n_jobs)
+								bigwig=bwp, signal_beta=kw["signal_beta"],
+								chroms=(tuple(kw["chroms"]) if (kw["chroms"] is not None and
+									case.get("chroms_as") == "tuple") else kw["chroms"]),
+								random_state=(numpy.int64(kw["random_state"]) if
+									case.get("seed_type") == "numpy.int64" else kw["random_state"]),
+								n_jobs=n_jobs)
 				except PoolWorkerFailed:
 					status = "raised:PoolWorkerFailed"
 				except Exception as e:
